@@ -38,13 +38,10 @@ pub fn nested_run_helper(_a: u64, _b: u64, _c: u64, _d: u64, _e: u64) -> u64 {
     v.push(Insn::new(MOV64_IMM, 0, 0, 0, 5));
     v.push(Insn::new(EXIT, 0, 0, 0, 0));
     let prog = encode_prog(&v);
-    let saved = hooks::save();
-    let r = match Vm::new(Kind::NoData, Some(&prog), (0, 8)) {
+    hooks::suspended(|| match Vm::new(Kind::NoData, Some(&prog), (0, 8)) {
         Ok(mut vm) => vm.exec((std::ptr::null_mut(), 0), (std::ptr::null_mut(), 0)).unwrap_or(99),
         Err(_) => 98,
-    };
-    hooks::restore(saved);
-    r
+    })
 }
 
 fn big_load(v: &mut Vec<Insn>, dst: u8, base: u8, off: usize) {
